@@ -82,6 +82,13 @@ def _decoys(job, root):
             os.makedirs(os.path.join(root, "src", os.path.dirname(rel)), exist_ok=True)
 
 
+def _arm(job):
+    """interrogate reads headers, and skips an include file it cannot open (for lack of memory too) like a missing one:
+    allocation faults are injected from its first output open on.  interrogate_module reads only the databases, whose
+    failure to load it must report anyway: there the faults cover the whole run."""
+    return "1" if job["tool"] == "interrogate" else "0"
+
+
 def _golden_for(job, idx):
     root = runner.fresh_dir("golden-%d" % idx)
     common.materialise(job, root)
@@ -126,7 +133,7 @@ def _golden_for(job, idx):
     common.materialise(job, root)
     _decoys(job, root)
     tr = os.path.join(root, "heap.trace")
-    rh = common.run_job(job, root, "rel", env=dict(ENV, SIMHEAP_SEED="1", SIMHEAP_BIG=str(BIG_ALLOC), SIMHEAP_TRACE=tr), preload=[build.shim("simheap")])
+    rh = common.run_job(job, root, "rel", env=dict(ENV, SIMHEAP_SEED="1", SIMHEAP_BIG=str(BIG_ALLOC), SIMHEAP_ARM_ON_OUTPUT=_arm(job), SIMHEAP_TRACE=tr), preload=[build.shim("simheap")])
     big = 0
     try:
         with open(tr) as f:
@@ -197,8 +204,10 @@ def _fault_points(ji):
             pts.append({"ch": ch, "op": "write", "k": k, "action": "shortok", "n": max(1, size // 3)})
         for e in CLOSE_ERRNOS:
             pts.append({"ch": ch, "op": "close", "k": 1, "action": "fail", "err": e})
-    # memory runs out at the k-th large allocation request (the buffers the output is collected in grow by doubling: those
-    # are the requests that fail first when memory is short); once, or from then on
+    # memory runs out at the k-th large allocation request after the first output file has been opened (the buffers the
+    # output is collected in grow by doubling: those are the requests that fail first when memory is short); once, or from
+    # then on.  Requests made while the inputs are still being read are not touched: an include file that cannot be opened
+    # for lack of memory is skipped like a missing one, which changes the output but is not a failed output write.
     for k in range(1, g.get("big_allocs", 0) + 1):
         for sticky in (0, 1):
             pts.append({"ch": sorted(job["outputs"])[0], "op": "oom", "k": k, "sticky": sticky, "min": BIG_ALLOC})
@@ -318,7 +327,7 @@ def execute(plan):
     env = ENV
     preload = []
     if oom:
-        env = dict(ENV, SIMHEAP_SEED="1", SIMHEAP_BIG=str(oom.get("min", BIG_ALLOC)), SIMHEAP_FAIL_AT=str(oom["k"]), SIMHEAP_FAIL_STICKY=str(oom.get("sticky", 0)),
+        env = dict(ENV, SIMHEAP_SEED="1", SIMHEAP_BIG=str(oom.get("min", BIG_ALLOC)), SIMHEAP_FAIL_AT=str(oom["k"]), SIMHEAP_FAIL_STICKY=str(oom.get("sticky", 0)), SIMHEAP_ARM_ON_OUTPUT=_arm(job),
                    SIMHEAP_TRACE=os.path.join(root, "heap.trace"))
         preload = [build.shim("simheap")]
     if cwdgone:
